@@ -13,6 +13,7 @@ def main():
     ap.add_argument('--tier', default=os.environ.get('VERIF_TIER', 'quick'))
     ap.add_argument('--update-ledger', action='store_true')
     ap.add_argument('--only', default=None, help='substring filter on task names (development)')
+    ap.add_argument('--no-selftest', action='store_true', help='thorough tier: skip the generator self-test (canned edits on scratch copies)')
     a = ap.parse_args()
     os.environ['VERIF_TIER'] = a.tier
     seed = int(os.environ.get('VERIF_SEED', '0') or 0)
@@ -22,7 +23,25 @@ def main():
     if a.only:
         tasks = [t for t in tasks if a.only in t[1] or a.only in str(t[2])]
     rc = ob.run_property(a.prop, tasks, a.tier, seed, mod.LEVEL, mod.ASSUMPTIONS, update_ledger=a.update_ledger, partial=bool(a.only))
+    if a.tier == 'thorough' and rc == 0 and not a.no_selftest and not a.only and not os.environ.get('VERIF_REPO'):
+        selftest(a.prop)
     sys.exit(rc)
+
+
+def selftest(prop):
+    """thorough tier, only when the property held: canned edits of the code on scratch copies must be caught (breaking ones) or
+    accepted (harmless ones).  Reported in the evidence file; never changes the verdict on the tree under test."""
+    import json
+    sys.path.insert(0, ob.ROOT)
+    from tools import selftest as st
+    res = st.run(prop, 'quick')
+    path = os.path.join(os.environ.get('VERIF_OUT') or ob.ROOT, 'evidence', f'{prop}.json')
+    ev = json.load(open(path))
+    ev['coverage']['selftest'] = [dict(name=r['name'], expect=r['expect'], got=r['got'], violations=r.get('violations'),
+                                       with_failing_input=r.get('with_failing_input'), first_obligations=r.get('first')) for r in res]
+    json.dump(ev, open(path, 'w'), indent=1, default=str)
+    for r in res:
+        print(f"SELFTEST {prop} {r['name']}: expected {r['expect']}, got {r['got']}" + ('' if r['ok'] else '  <-- MISMATCH'))
 
 
 if __name__ == '__main__':
